@@ -18,6 +18,32 @@ CLAIMS = {
              "local map first, unbound verbatim, escapes literal. The driver runs this specification against pycfmodel.resolver.resolve on "
              "type-directed random expressions over all sixteen functions.",
         note=TRUST + "typed fragment only (ill-typed expressions are not compared); ASCII placeholder names; Fn::GetAtt/GetAZs values unconstrained; FindInMap leaves as stored."),
+    "C02": dict(
+        technique="Lean 4 proof (condition table by name with cycle-set semantics proved independent of declaration order; If / NoValue / presence clauses) + differential correspondence and permutation oracle",
+        text="Template.condTable evaluates each condition from its definition and the values of the non-cyclic declared conditions it "
+             "references, looked up by name; C02_order proves (for all definition lists, acyclic or cyclic) that any permutation of the "
+             "declarations gives the same value to every condition; C02_reference_false that undeclared and cyclic references are invisible "
+             "(read false); C02_presence, C02_if, C02_novalue_list/obj, C02_and_or/not/equals state the remaining clauses. The driver runs "
+             "Template.resolveT against CFModel.resolve (observing what it hands to re-validation) and every template is re-run with its "
+             "Conditions permuted.",
+        note=TRUST + "input is the parsed model's dump; the step bound (fuel = number of declarations + 1) is not yet proved sufficient in Lean (a shortfall would show as 'outside fragment', never as agreement)."),
+    "C04": dict(
+        technique="Lean 4 proof (reference value by cases, binding precedence by lookup lemmas, NoEcho noninterference, SSM key recogniser, credential predicate) + exhaustive declaration table + differential correspondence",
+        text="Template.refValue / bind transliterate Parameter.get_ref_value and the {pseudo, declared, extra} merge. Proved for all "
+             "declarations and supplied values: precedence (C04_precedence, C04_bind_declared, C04_bind_undeclared), list splitting, "
+             "totality on scalar values (C04_total, incl. value-less list parameters), the three markers (C04_noecho_markers) and that the "
+             "whole binding is independent of the supplied value of a NoEcho parameter (C04_noninterference, _bind), SSM lookup (C04_ssm), and "
+             "has_hardcoded_credentials false iff every credential field is absent or the marker (C04_credentials_iff). The Type × Default × "
+             "NoEcho × supplied table is enumerated completely on every run; templates, secret search and two-secret comparison on the implementation.",
+        note=TRUST + "scalar values and defaults; the Default of a NoEcho parameter stays in the Parameters declaration (scope decision)."),
+    "C07": dict(
+        technique="Lean 4 proof (resolution reads the environment only through lookups by name; each resource resolved from its own definition) + metamorphic oracle on the implementation + differential correspondence",
+        text="resolve_ext (mutual induction over JSON) shows Spec.resolve depends on parameters, mappings and conditions only through lookups "
+             "by name, so permuting those sections (unique names) changes nothing (C07_sections_perm, C07_env_by_name); C07_resource_local / "
+             "C07_resources_perm show a resource's resolved form is determined by its own definition whatever other resources are present "
+             "and in whatever order; condition position is C02_order. The implementation is run on each template and five variants "
+             "(permuted resources / sections / object keys, restriction, extension with shadowing Fn::Sub variables).",
+        note=TRUST + "'adding unused parameters/mappings/conditions' and key order inside nested objects are decided by the metamorphic oracle and the correspondence, not by a theorem."),
     "C08": dict(
         technique="Lean 4 proof (matcher = glob language, by induction) + differential correspondence with the implementation",
         text="Glob.gmatch is proved equal to the inductive glob language for all patterns and strings (C08_sound_complete) with "
